@@ -51,9 +51,21 @@ def gen_lock_script(rng, tier):
     return '\n'.join(L) + '\n'
 
 
+def gen_delete_storm_script(rng):
+    """Thousands of clients deleting keys that live in a CLOSED blob (each such delete notifies the worker while it holds
+    the storage lock) while blob switches need the exclusive lock: nothing may hang."""
+    nkeys = rng.choice([2500, 3000])
+    L = ['cfg K=4 dup=1 group=8 bloom=none init=eager runtime=%s maxrec=%d' % (rng.choice(['mt', 'ct']), rng.choice([200, 100000])), 'open', 'sleep 210']
+    L.append('par tasks=%d ops=1 keys=%d seed=%d kinds=W base=1000' % (nkeys, nkeys, rng.randrange(1, 10**6)))
+    L += ['quiesce', 'close_active', 'create_active', 'sleep 210']
+    L.append('par tasks=%d ops=1 keys=%d seed=%d kinds=%s base=900000' % (nkeys, nkeys, rng.randrange(1, 10**6), rng.choice(['D', 'DDDM', 'DDW'])))
+    L += ['quiesce', 'counts', 'close']
+    return '\n'.join(L) + '\n'
+
+
 def gen(tier, rng):
     n = 60 if tier == 'quick' else 800
-    return [('conc%05d' % i, gen_script(rng, tier)) for i in range(n)] + [('lock%05d' % i, gen_lock_script(rng, tier)) for i in range(n // 6)]
+    return [('conc%05d' % i, gen_script(rng, tier)) for i in range(n)] + [('lock%05d' % i, gen_lock_script(rng, tier)) for i in range(n // 6)] + [('storm%05d' % i, gen_delete_storm_script(rng)) for i in range(max(2, n // 30))]
 
 
 def parse_par(o):
@@ -70,6 +82,15 @@ def oracle(lines, io, spec=None):
     pi = next((i for i, l in enumerate(lines) if l.startswith('par ')), None)
     if pi is None or pi >= len(io):
         return fails
+    for pj, pl in enumerate(lines):
+        if pl.startswith('par ') and pj != pi and pj < len(io) and io[pj].endswith('Timeout'):
+            return ['concurrent operations did not finish (deadlock?): %s' % pl]
+    if len([l for l in lines if l.startswith('par ')]) > 1:
+        # delete storm: liveness and error classes only
+        bad = [o for l, o in zip(lines, io) if l.startswith('par ') and ('Err_' in o and 'Err_ActiveBlobNotSet' not in o)]
+        if io[pi].endswith('Timeout'):
+            return ['concurrent operations did not finish (deadlock?): %s' % lines[pi]]
+        return ['operation failed under concurrency: %s' % bad[0][:200]] if bad else []
     if io[pi] == 'par Timeout' or io[pi].endswith('Timeout'):
         m = re.search(r'tasks=(\d+)', lines[pi])
         tag = '[F10] ' if (m and int(m.group(1)) > 1024) else ''
